@@ -26,6 +26,9 @@ type Clause struct {
 	TR bool     `json:"tr,omitempty"`
 }
 
+// Delimiters used by Source(); set from the case's engine configuration.
+var dOL, dOR, dTL, dTR = "{{", "}}", "{%", "%}"
+
 // wrapIncludes (C14): every include is bracketed by the harness's snap/mark tags.
 var wrapIncludes bool
 
@@ -49,32 +52,32 @@ func (n *TNode) write(sb *strings.Builder) {
 	case "text":
 		sb.WriteString(n.S)
 	case "obj":
-		sb.WriteString("{{" + mk(n.TL) + " " + n.S + " " + mk(n.TR) + "}}")
+		sb.WriteString(dOL + mk(n.TL) + " " + n.S + " " + mk(n.TR) + dOR)
 	case "tag":
 		if wrapIncludes && strings.HasPrefix(n.S, "include ") {
 			arg := strings.TrimPrefix(n.S, "include ")
-			sb.WriteString("{% snap " + arg + " %}{% include " + arg + " %}{% mark %}")
+			sb.WriteString(dTL + " snap " + arg + " " + dTR + dTL + " include " + arg + " " + dTR + dTL + " mark " + dTR)
 			return
 		}
-		sb.WriteString("{%" + mk(n.TL) + " " + n.S + " " + mk(n.TR) + "%}")
+		sb.WriteString(dTL + mk(n.TL) + " " + n.S + " " + mk(n.TR) + dTR)
 	case "raw", "comment":
-		sb.WriteString("{%" + mk(n.TL) + " " + n.K + " " + mk(n.TR) + "%}" + n.S + "{%" + mk(n.EL) + " end" + n.K + " " + mk(n.ER) + "%}")
+		sb.WriteString(dTL + mk(n.TL) + " " + n.K + " " + mk(n.TR) + dTR + n.S + dTL + mk(n.EL) + " end" + n.K + " " + mk(n.ER) + dTR)
 	case "block":
 		name := n.S
 		if i := strings.IndexByte(name, ' '); i >= 0 {
 			name = name[:i]
 		}
-		sb.WriteString("{%" + mk(n.TL) + " " + n.S + " " + mk(n.TR) + "%}")
+		sb.WriteString(dTL + mk(n.TL) + " " + n.S + " " + mk(n.TR) + dTR)
 		for _, c := range n.C {
 			c.write(sb)
 		}
 		for _, cl := range n.Cl {
-			sb.WriteString("{%" + mk(cl.TL) + " " + cl.S + " " + mk(cl.TR) + "%}")
+			sb.WriteString(dTL + mk(cl.TL) + " " + cl.S + " " + mk(cl.TR) + dTR)
 			for _, c := range cl.C {
 				c.write(sb)
 			}
 		}
-		sb.WriteString("{%" + mk(n.EL) + " end" + name + " " + mk(n.ER) + "%}")
+		sb.WriteString(dTL + mk(n.EL) + " end" + name + " " + mk(n.ER) + dTR)
 	}
 }
 
@@ -130,6 +133,9 @@ func NewGen(r *Rng, budget int) *Gen {
 	if r.Chance(0.35) {
 		g.focus = pickFocus(r)
 	}
+	if r.Chance(0.1) {
+		g.feat["deep"], g.feat["nest"] = true, true
+	}
 	return g
 }
 
@@ -161,7 +167,7 @@ func scopeOf(e *Env) scope {
 		switch v.T {
 		case "str":
 			s.strs = append(s.strs, n)
-		case "int", "float":
+		case "int", "float", "jnum":
 			s.nums = append(s.nums, n)
 		case "arr":
 			s.arrs = append(s.arrs, n)
@@ -510,7 +516,11 @@ func (g *Gen) Nodes(sc scope, depth int, max int) []*TNode {
 }
 
 func (g *Gen) node(sc *scope, depth int) *TNode {
-	deep := depth < 3 && g.budget > 2 && (g.feat["nest"] || depth == 0)
+	maxDepth := 3
+	if g.feat["deep"] {
+		maxDepth = 7
+	}
+	deep := depth < maxDepth && g.budget > 2 && (g.feat["nest"] || depth == 0)
 	b := func(x bool, w int) int {
 		if x {
 			return w
@@ -655,9 +665,17 @@ func (g *Gen) node(sc *scope, depth int) *TNode {
 		g.use("tag:raw")
 		return g.trim(&TNode{K: "raw", S: pick(g.r, []string{"", "r", " {{ x }} ", "{% if %}", "\n raw \n"})})
 	case 13:
+		if g.feat["custom"] && !g.NoCustom && !wrapIncludes && g.r.Chance(0.25) {
+			g.use("tag:rfile") // custom tag built on Context.RenderFile
+			return &TNode{K: "tag", S: "rfile " + pick(g.r, g.incArgs)}
+		}
 		g.use("tag:include")
 		return &TNode{K: "tag", S: "include " + pick(g.r, g.incArgs)}
 	case 14:
+		if g.r.Chance(0.3) {
+			g.use("tag:expand") // custom tag that uses Context.ExpandTagArg
+			return g.trim(&TNode{K: "tag", S: "expand " + pick(g.r, []string{"a", "x-", ""}) + "{{ " + g.scalarExpr(*sc) + " }}" + pick(g.r, []string{"", "-b", " c"})})
+		}
 		g.use("tag:echo")
 		return g.trim(&TNode{K: "tag", S: "echo " + g.scalarExpr(*sc)})
 	case 15:
